@@ -579,7 +579,10 @@ func floatOrderExact(in *input) bool {
 			}
 		}
 		if len(scorers) < 2 {
-			continue
+			continue // one scorer: the float order is the order of its own (monotone) scores
+		}
+		if len(scorers) > 4 {
+			return false // the 1e-9 gap argument is only made for up to four scorers (exact gaps >= 1e-8)
 		}
 		ctx := &policy.PolicyContext{NodeMetrics: pm, AllNodes: nodes}
 		tot := make([]float64, len(nodes))
